@@ -65,7 +65,7 @@ def run_trace(scn):
     rows = []
     for j, a in enumerate(arrivals):
         rows += simple_rows("p%d" % (j + 1), a, nops[j], PRIOS[j % 3])
-    text = rows_to_text(rows)
+    text = "" if scn.get("empty_file") else rows_to_text(rows)
     exp = [expected_tick(a, tps) for a in arrivals]
     delivered = {}
     order = []
@@ -138,8 +138,12 @@ def run_trace(scn):
             raise late_known
     except Violation as v:
         out["violation"] = v.to_json()
+    except Exception as e:  # noqa: BLE001 - a well-formed trace in arrival order must replay
+        out["violation"] = Violation("C13.raises", {"exc": repr(e)[:200], "tps": tps, "pipelines": len(arrivals)}).to_json()
+    if not arrivals:
+        probes["empty_trace"] = 1
     out["probes"] = probes
-    out["faults"] = {k: v for k, v in probes.items() if k in ("on_grid", "in_band", "beyond_end", "equal_arrivals") and v}
+    out["faults"] = {k: v for k, v in probes.items() if k in ("on_grid", "in_band", "beyond_end", "equal_arrivals", "empty_trace") and v}
     out["nontrivial"] = bool(out["faults"])
     out["sim_s"] = nticks / tps
     out["sig"] = digest([tps, nticks, arrivals[:50]])
@@ -148,6 +152,10 @@ def run_trace(scn):
 
 def gen_trace(r, avoid_known=True):
     tps = r.choice([1, 2, 3, 5, 7, 10, 10, 16, 30, 100, 250, 1000, 10 ** 4, 10 ** 5])
+    if r.random() < 0.02:
+        # a header-only trace is a valid workload: nothing ever arrives
+        return {"kind": "trace", "tps": tps, "nticks": r.randint(1, 50), "arrivals": [], "nops": [], "jump": False,
+                "empty_file": r.random() < 0.3}
     n = r.randint(1, 50)
     far = r.random() < 0.3
     t = F(0)
